@@ -43,8 +43,8 @@ CHECKS = {
              ]},
             {"pkg": "./server", "overlay": "server", "pkgname": "server",
              "harnesses": [
-                 {"name": "VerifC02Pipeline", "replay": "interpreted", "max-paths": 3000000, "quick": {"steps": 5, "stalereq": 0}, "thorough": {"steps": 7},
-                  "covers": ["done", "publish", "fetch-b", "fetch-c", "shrink", "expand-by-replicator", "small-batches"], "covers_thorough": ["stale-request"],
+                 {"name": "VerifC02Pipeline", "replay": "interpreted", "max-paths": 3000000, "quick": {"steps": 5, "stalereq": 0}, "thorough": {"steps": 7, "stalereq": 0},
+                  "covers": ["done", "publish", "fetch-b", "fetch-c", "shrink", "expand-by-replicator", "small-batches"],
                   "targets": ["replicator).start", "replicator).replicate", "replicator).caughtUp", "replicator).maybeExpandISR", "protocolWriter).Flush",
                               "partition).sendReplicationRequest", "partition).handleReplicationRequest", "partition).handleReplicationResponse",
                               "partition).commitLoop", "partition).updateISRLatestOffset", "partition).messageProcessingLoop"]},
@@ -383,6 +383,7 @@ CHECKS = {
              "harnesses": [
                  {"name": "VerifC14CheckEnvelope", "quick": {"maxlen": 40}, "thorough": {"maxlen": 96},
                   "covers": ["accepted", "rejected", "accepted-with-crc"], "targets": ["checkEnvelope", "hasBit"]},
+                 {"name": "VerifC14ValidCRCAccepted", "quick": {"maxlen": 8}, "thorough": {"maxlen": 24}, "covers": ["done"], "targets": ["checkEnvelope"]},
                  {"name": "VerifC14ReplicationResponse", "quick": {"maxlen": 48}, "thorough": {"maxlen": 96},
                   "covers": ["accepted", "rejected"], "targets": ["UnmarshalReplicationResponse", "checkEnvelope"]},
                  {"name": "VerifC14Wrappers", "quick": {"maxpayload": 12}, "thorough": {"maxpayload": 24}, "replay": "interpreted",
